@@ -7,17 +7,31 @@ the chunker `Rustic/Model/Chunker.lean` (C06).  Every statement is for all input
 valid characters and invalid bytes), all blob lists, offsets and lengths (also past the end), all sorted location
 lists, all write orders, all byte streams and chunker parameters, all read-fragmentation schedules.
 
-FULL STATEMENT (whole pipeline incl. the packer / indexer / codecs): restore (archive cfg store src sched) = src.
-Proved here (`backup_restore_file_partial`): the composition for the name and the content of an entry, *given*
-that every chunk the archiver hands to the packer can be read back from the repository by its id
-(`StoreFaithful`).  That hypothesis is where the unmodelled parts live: blob/file codecs (AES, zstd, serde —
-trusted), pack/index formats (C08, C17) and the packer's dedup filters, whose untyped `Indexer.indexed` set loses
-a tree blob equal to an already indexed data chunk (DESIGN §7 #7; witness replayed on the real code in C12,
-corpus/C12/copy_collision.ops; being repaired by another builder).  The end-to-end oracle of the correspondence
-run exercises the whole real pipeline.
+THE COMPOSITION (whole pipeline incl. codecs, packer, pack files, index, tree blobs) is proved here over the component
+models of the other properties — no `StoreFaithful` assumption is left:
+* `stored_blob_reads_back` (6): blob codec (`Model/Codec`, C04 round trip) → `BasicPacker.add_raw` (`Model/Pack`, C08
+  offsets/bytes invariant) → pack file bytes → index files listing the packs (`Model/Index`; ANY index value the
+  loader may produce, C17 `get_succeeds_iff` / `get_returns_a_listing`) → `get_id` → partial read → decode = the plaintext.
+  (6') the index may equally be the one `PackHeader::from_file` rebuilds from the pack bytes (C08 `parse_build`).
+* `archive_restore_blobs` (7): for EVERY schedule of the packer pipeline (`Model/Archive` part 2: early/late dedup filters,
+  any pack boundaries, writer and indexer delays; C07 `uploaded_exactly_added`, C13 `every_written_pack_indexed`, typed
+  indexer c65a201) every blob handed to a packer reads back.  `store_faithful_derived` / `backup_restore_file` (8): the
+  former hypothesis as a theorem, one file end to end through the C06 chunker.
+* `archive_restore` (9): a whole source forest — names (any bytes), entry types, link targets (UTF-8 or not), metadata
+  (mode/mtime/… as one record), file contents, directories of any depth/width incl. empty ones — through the real
+  `TreeIterator` (`Model/Tree TIter`), `Parent` (no parent), `FileArchiver` step and the `TreeArchiver` stack machine
+  (`Model/Archive.archive`), tree serialisation with escaped names, the packer pipeline under any schedule, and back
+  through index lookups, decoding, `from_slice`, un-escaping, ranged/positional content assembly: `restore = src`.
+Remaining hypotheses, all explicit: ideal AE (`Codec.AE`: CTR inverse, tag length), zstd round trip (`Codec.Zstd`), serde
+round trip of trees (`Snapshot.Ser`), UTF-8 facts (`StrOK`), hash injectivity on the blobs of this run (`HashInj`), collision
+free pack ids, 16-byte nonces; a fresh repository for (7)–(9) ((6) is for any repository satisfying `RepoOK`).
 -/
 import Rustic.Lemmas.RoundTrip
 import Rustic.Props.C06
+import Rustic.Lemmas.StorePipeline
+import Rustic.Lemmas.SnapshotArchive
+import Rustic.Lemmas.TreeIter
+import Rustic.Lemmas.Times
 namespace Rustic.Props.C01
 open Rustic.RoundTrip
 
@@ -78,11 +92,344 @@ theorem backup_restore_file_partial {σ : Type} (enc : Char → Bytes) (he : Enc
       = totalLen (Rustic.Props.C06.chunksOf r p bufSize input sched) from rfl, this]
   exact Rustic.Props.C06.lossless r p hp bufSize hb input sched
 
+/-- (2') … so a ranged read (`read_file_at`) of an archived file whose chunks read back by their ids returns exactly the
+requested range of the file's bytes (any offset, any length, also past the end) — with (8) the premise is a theorem. -/
+theorem ranged_read_of_stored_file (maxv : Nat) (hash : Bytes → Nat) (store : Nat → Option Bytes) (chunks : List Bytes)
+    (hs : StoreFaithful hash chunks store) (offset len : Nat) (hm : offset < maxv) :
+    ((chunks.map hash).mapM store).map (fun blobs => readAt maxv (blobs.map List.length) blobs offset len) =
+      some ((chunks.flatten.drop offset).take len) := by
+  rw [mapM_store _ hs]
+  simp only [Option.map_some]
+  rw [readAt_eq maxv chunks offset len hm]
+
 /-- (5') the store the archiver builds is faithful when distinct chunks have distinct ids -/
 theorem archive_store_faithful (hash : Bytes → Nat) (chunks : List Bytes) (store : Nat → Option Bytes)
     (hinj : ∀ a ∈ chunks, ∀ b ∈ chunks, hash a = hash b → a = b) :
     StoreFaithful hash chunks (archiveFile hash chunks store).2 :=
   archive_store_get hinj
+
+/-! ### the composition over the real formats -/
+
+open Rustic.Store Rustic.Snapshot in
+/-- (6) **A stored blob reads back** — codec → packer → pack file → index → lookup → partial read → decode.
+`packs`: the pack files of the repository, each the output of `BasicPacker` on blobs that went through `process_data`
+(any nonces, duplicates, any number of blobs); `files`: any index files; `RepoOK`: the index lists exactly these packs
+with the blob lists their packers recorded, pack ids name one file, plaintexts of one type with equal ids are equal
+(hash injectivity on what is stored), nothing empty is stored compressed.  Then for ANY index value the load may produce
+(unstable sort!) every blob handed to a packer — also one `add_raw` skipped as duplicate, also one present in several
+packs — is returned exactly by `blob_from_backend`. -/
+theorem stored_blob_reads_back (c : Cfg) (packs : List BuiltPack) (files : List Rustic.Index.IndexFile)
+    (hok : RepoOK c packs (Rustic.Index.unmarked files)) (idx : Rustic.Index.Index)
+    (hl : Rustic.Props.C17.Loaded .full files idx) (q : BuiltPack) (hq : q ∈ packs) (a : Add) (ha : a ∈ q.adds) :
+    readBlob c idx (backendGet c packs) q.tpe (c.hash a.data) = some a.data :=
+  blob_read_back c packs files hok idx hl q hq a ha
+
+open Rustic.Store in
+/-- (6') … and the index entry `PackHeader::from_file` rebuilds from the pack file alone (any size hint: none, too
+small, exact, too large) is the entry the indexer wrote — so (6) holds verbatim for a repaired index. -/
+theorem rebuilt_index_entry_is_written_one (c : Cfg) (q : BuiltPack) (hn : q.hdrNonce.length = 16)
+    (hwf : ∀ b ∈ (q.packer c).blobs, Rustic.Pack.WFBlob b)
+    (hfit : Rustic.Pack.packSize (q.packer c).blobs < 4294967296) (hint : Option Nat) :
+    q.rebuiltIndexPack c hint = q.indexPack c :=
+  rebuilt_eq_written c q hn hwf hfit hint
+
+/-- the `Conc` whose plaintexts are those of the blobs the archiver handed over -/
+def concOf (hash : RoundTrip.Bytes → Nat) (blobs : List (Rustic.Archive.BT × RoundTrip.Bytes)) (nonce : Rustic.Archive.Key → RoundTrip.Bytes)
+    (hdrNonce : Rustic.Archive.BT × List Nat → RoundTrip.Bytes) (packId : Rustic.Archive.BT × List Nat → Nat) : Rustic.Store.Conc :=
+  { content := Rustic.Store.contentOf hash blobs, nonce := nonce, hdrNonce := hdrNonce, packId := packId }
+
+/-- the hypotheses about one backup run into a fresh repository -/
+structure RunOK (c : Rustic.Store.Cfg) (blobs : List (Rustic.Archive.BT × RoundTrip.Bytes)) (k : Rustic.Store.Conc)
+    (evs : List Rustic.Archive.Ev) : Prop where
+  /-- hash injectivity on the blobs of this run -/
+  inj : Rustic.Store.HashInj c.hash blobs
+  /-- trees and chunks are never empty -/
+  nonempty : ∀ b ∈ blobs, b.2 ≠ []
+  /-- `Packer::add` was called exactly with the blobs' keys (in any order, any number of times) -/
+  entered : ∀ key, key ∈ Rustic.Archive.entered evs ↔ key ∈ blobs.map (fun b => (b.1, c.hash b.2))
+  content : k.content = Rustic.Store.contentOf c.hash blobs
+  /-- pack ids are collision free -/
+  packId : ∀ p p', k.packId p = k.packId p' → p = p'
+  nonce : ∀ key, (k.nonce key).length = 16
+
+open Rustic.Store Rustic.Archive in
+/-- (7) **Every blob of a backup run reads back, for every schedule of the packer pipeline.**  `evs` is any interleaving
+of `Packer::add` calls, late-filter commits, pack flushes (every pack-size setting), pack writes and indexer updates;
+the repository is what `finalize` leaves (`packsOf` / `indexedOf` give the pipeline's packs their bytes); `files` is any
+way of spreading the indexed packs over index files; `idx` any index the loader may build. -/
+theorem archive_restore_blobs (c : Cfg) (blobs : List (BT × RoundTrip.Bytes)) (k : Conc) (evs : List Ev) (hr : RunOK c blobs k evs)
+    (files : List Rustic.Index.IndexFile)
+    (hfiles : ∀ p, p ∈ Rustic.Index.unmarked files ↔ p ∈ indexedOf c k (finalizeAll (runEvs Rustic.Props.C07.init evs)))
+    (idx : Rustic.Index.Index) (hl : Rustic.Props.C17.Loaded .full files idx) :
+    ∀ b ∈ blobs, readBlob c idx (backendGet c (packsOf k (finalizeAll (runEvs Rustic.Props.C07.init evs))))
+      (toBlobType b.1) (c.hash b.2) = some b.2 := by
+  have hkey : ∀ key ∈ entered evs, c.hash (k.content key) = key.2 ∧ ∃ b ∈ blobs, b.2 = k.content key := by
+    intro key hk
+    rw [hr.content]
+    exact contentOf_key c.hash blobs key ((hr.entered key).mp hk)
+  have hok := (pipeline_repoOK c k evs hr.packId hr.nonce
+    (fun key hk => by
+      obtain ⟨_, b, hb, he⟩ := hkey key hk
+      exact Or.inl (he ▸ hr.nonempty b hb))
+    (fun key hk => (hkey key hk).1)).of_mem_iff hfiles
+  intro b hb
+  have hent : (b.1, c.hash b.2) ∈ entered evs := (hr.entered _).mpr (List.mem_map.mpr ⟨b, hb, rfl⟩)
+  obtain ⟨q, hq, hty, a, ha, hdata⟩ := entered_is_added k evs _ hent
+  have hcont : k.content (b.1, c.hash b.2) = b.2 := by rw [hr.content]; exact contentOf_spec c.hash blobs hr.inj b hb
+  have := blob_read_back c _ files hok idx hl q hq a ha
+  rw [hdata, hcont, hty] at this
+  exact this
+
+open Rustic.Store Rustic.Archive in
+/-- (8) **`StoreFaithful` is a theorem**: the chunks of a file that went through the pipeline (with whatever else the
+run stored) read back by their ids. -/
+theorem store_faithful_derived (c : Cfg) (blobs : List (BT × RoundTrip.Bytes)) (k : Conc) (evs : List Ev) (hr : RunOK c blobs k evs)
+    (files : List Rustic.Index.IndexFile)
+    (hfiles : ∀ p, p ∈ Rustic.Index.unmarked files ↔ p ∈ indexedOf c k (finalizeAll (runEvs Rustic.Props.C07.init evs)))
+    (idx : Rustic.Index.Index) (hl : Rustic.Props.C17.Loaded .full files idx)
+    (chunks : List RoundTrip.Bytes) (hc : ∀ ch ∈ chunks, (BT.data, ch) ∈ blobs) :
+    StoreFaithful c.hash chunks
+      (readBlob c idx (backendGet c (packsOf k (finalizeAll (runEvs Rustic.Props.C07.init evs)))) .data) :=
+  fun ch hch => archive_restore_blobs c blobs k evs hr files hfiles idx hl (.data, ch) (hc ch hch)
+
+open Rustic.Store Rustic.Archive in
+/-- (8') One file end to end, nothing assumed of the store: rabin chunker (any accepted parameters, any reader
+fragmentation) → blob codec → packer pipeline (any schedule) → pack files → index → lookups → decode → positional writes
+in any order = the file's bytes; and the name round trip. -/
+theorem backup_restore_file {σ : Type} (enc : Char → RoundTrip.Bytes) (he : EncAscii enc) (name : List Item)
+    (r : Rustic.Chunker.Roll σ) (p : Rustic.Chunker.Params) (hp : Rustic.Props.C06.WFp p) (bufSize : Nat)
+    (hb : 0 < bufSize) (input : RoundTrip.Bytes) (sched : List Rustic.Chunker.Ev)
+    (c : Cfg) (blobs : List (BT × RoundTrip.Bytes)) (k : Conc) (evs : List Ev) (hr : RunOK c blobs k evs)
+    (hc : ∀ ch ∈ Rustic.Props.C06.chunksOf r p bufSize input sched, (BT.data, ch) ∈ blobs)
+    (files : List Rustic.Index.IndexFile)
+    (hfiles : ∀ p, p ∈ Rustic.Index.unmarked files ↔ p ∈ indexedOf c k (finalizeAll (runEvs Rustic.Props.C07.init evs)))
+    (idx : Rustic.Index.Index) (hl : Rustic.Props.C17.Loaded .full files idx)
+    (order : List Write → List Write) (ho : ∀ l w, w ∈ order l ↔ w ∈ l) :
+    unescape enc (escape name) = some (name.flatMap (itemBytes enc)) ∧
+    (restoreFile (readBlob c idx (backendGet c (packsOf k (finalizeAll (runEvs Rustic.Props.C07.init evs)))) .data)
+      ((Rustic.Props.C06.chunksOf r p bufSize input sched).map c.hash) order).map File.bytes = some input :=
+  backup_restore_file_partial enc he name r p hp bufSize hb input sched c.hash _
+    (store_faithful_derived c blobs k evs hr files hfiles idx hl _ hc) order ho
+
+open Rustic.Store Rustic.Archive Rustic.Snapshot Rustic.Tree in
+/-- (9) **Backup followed by restore reproduces the source tree.**  `src`: any source forest (`WFL`: what a file system
+gives — leaves are not directories, only files carry bytes; `WalkableL`: directories are directory nodes, adjacent sibling
+directories have different names).  The archiver (`Archive.archive`: real `TreeIterator` over the depth-first entries,
+`Parent` without parents, file step with the chunker `chunks`, `TreeArchiver`) runs on a fresh repository with tree id
+`H nodes = hash (serialised nodes)` (names escaped, link targets as string + raw bytes); `blobs` are the trees and chunks
+it hands to the packers, `evs` any pipeline schedule entering them (`RunOK`), the repository what `finalize` leaves, `idx`
+any index the loader builds from any split into index files.  Then restoring from the snapshot's root tree id — tree blobs
+and data blobs through `blob_from_backend`, `from_slice`, un-escaped names, `to_link`, content by positional writes in any
+order — yields exactly `src`: every name, entry type, link target, metadata record and file content. -/
+theorem archive_restore (c : Cfg) (s : Str) (hs : StrOK s) (j : Ser) (chunks : RoundTrip.Bytes → List RoundTrip.Bytes)
+    (hch : ∀ d, (chunks d).flatten = d)
+    (src : List STree) (hwf : WFL src) (hwalk : WalkableL src)
+    (o : Rustic.Parent.Opts) (load : Id → Option (List Node)) (a : ArchOut)
+    (ha : archive (fun nodes => c.hash (treeBytes s j nodes)) (fun d => (chunks d).map c.hash) List.length load
+      (fun _ => false) noTree o [] (treeItems (entriesL [] src)) = some a)
+    (k : Conc) (evs : List Ev)
+    (hr : RunOK c (a.treeAdds.map (fun t => (BT.tree, treeBytes s j t.2)) ++
+      (saveL (fun nodes => c.hash (treeBytes s j nodes)) c.hash chunks noTree src).chunks.map (fun ch => (BT.data, ch))) k evs)
+    (files : List Rustic.Index.IndexFile)
+    (hfiles : ∀ p, p ∈ Rustic.Index.unmarked files ↔ p ∈ indexedOf c k (finalizeAll (runEvs Rustic.Props.C07.init evs)))
+    (idx : Rustic.Index.Index) (hl : Rustic.Props.C17.Loaded .full files idx)
+    (order : List Write → List Write) (ho : ∀ l w, w ∈ order l ↔ w ∈ l) :
+    restoreTrees s j
+      (readBlob c idx (backendGet c (packsOf k (finalizeAll (runEvs Rustic.Props.C07.init evs)))) .tree)
+      (readBlob c idx (backendGet c (packsOf k (finalizeAll (runEvs Rustic.Props.C07.init evs)))) .data)
+      order (depthL src + 1) a.root = some src := by
+  rw [tree_iterator_items src hwalk] at ha
+  obtain ⟨a', ha', hroot, htrees, _⟩ := archive_eq_save (fun nodes => c.hash (treeBytes s j nodes)) c.hash chunks load
+    (fun _ => false) noTree o src
+  rw [ha] at ha'
+  injection ha' with ha'
+  subst ha'
+  simp only [noTree, Bool.false_eq_true, if_false] at htrees
+  have hread := archive_restore_blobs c _ k evs hr files hfiles idx hl
+  rw [hroot]
+  refine restore_of_saved s hs j (fun nodes => c.hash (treeBytes s j nodes)) c.hash chunks hch
+    (readBlob c idx (backendGet c (packsOf k (finalizeAll (runEvs Rustic.Props.C07.init evs)))) .tree)
+    (readBlob c idx (backendGet c (packsOf k (finalizeAll (runEvs Rustic.Props.C07.init evs)))) .data)
+    order ho src hwf ?_ ?_ ?_
+  · exact hread (BT.tree, _) (List.mem_append_left _ (List.mem_map.mpr ⟨(_, _), by
+      rw [htrees]; exact List.mem_append_right _ (List.mem_singleton.mpr rfl), rfl⟩))
+  · intro p hp
+    have hid := saveL_trees_id (fun nodes => c.hash (treeBytes s j nodes)) c.hash chunks noTree src p hp
+    have := hread (BT.tree, treeBytes s j p.2) (List.mem_append_left _ (List.mem_map.mpr ⟨p, by
+      rw [htrees]; exact List.mem_append_left _ hp, rfl⟩))
+    rw [hid]
+    exact this
+  · intro ch hc
+    exact hread (BT.data, ch) (List.mem_append_right _ (List.mem_map.mpr ⟨ch, hc, rfl⟩))
+
+open Rustic.Store Rustic.Archive in
+/-- the repository a run leaves behind satisfies the restore invariant (used by (7) and (10)) -/
+theorem run_repoOK (c : Cfg) (blobs : List (BT × RoundTrip.Bytes)) (k : Conc) (evs : List Ev) (hr : RunOK c blobs k evs) :
+    RepoOK c (packsOf k (finalizeAll (runEvs Rustic.Props.C07.init evs)))
+      (indexedOf c k (finalizeAll (runEvs Rustic.Props.C07.init evs))) := by
+  have hkey : ∀ key ∈ entered evs, c.hash (k.content key) = key.2 ∧ ∃ b ∈ blobs, b.2 = k.content key := by
+    intro key hk
+    rw [hr.content]
+    exact contentOf_key c.hash blobs key ((hr.entered key).mp hk)
+  exact pipeline_repoOK c k evs hr.packId hr.nonce
+    (fun key hk => by
+      obtain ⟨_, b, hb, he⟩ := hkey key hk
+      exact Or.inl (he ▸ hr.nonempty b hb))
+    (fun key hk => (hkey key hk).1)
+
+open Rustic.Store Rustic.Archive Rustic.Snapshot Rustic.Tree in
+/-- (10) **… also into a repository that already holds data** (de-duplication against the global index).  `old` /
+`oldFiles`: any repository satisfying `RepoOK`; the archiver consults ANY index loaded from it (`idxOld`, any mode — backup
+uses `DataIds`) through `has_data` / `has_tree` and hands over only what it lacks; the new packs are added
+(`old ++ packsOf …`), the index files old and new are loaded together.  With collision-free pack ids and no hash collision
+between a plaintext already stored and another byte string, restoring the new snapshot yields exactly `src` — chunks and
+trees that were NOT uploaded because the index knew them are read from the old packs. -/
+theorem archive_restore_incremental (c : Cfg) (s : Str) (hs : StrOK s) (j : Ser) (chunks : RoundTrip.Bytes → List RoundTrip.Bytes)
+    (hch : ∀ d, (chunks d).flatten = d)
+    (src : List STree) (hwf : WFL src) (hwalk : WalkableL src)
+    (old : List BuiltPack) (oldFiles : List Rustic.Index.IndexFile)
+    (hold : RepoOK c old (Rustic.Index.unmarked oldFiles))
+    (m : Rustic.Index.IndexType) (idxOld : Rustic.Index.Index) (hlOld : Rustic.Props.C17.Loaded m oldFiles idxOld)
+    (o : Rustic.Parent.Opts) (load : Id → Option (List Node)) (a : ArchOut)
+    (ha : archive (fun nodes => c.hash (treeBytes s j nodes)) (fun d => (chunks d).map c.hash) List.length load
+      (idxOld.has .data) (idxOld.has .tree) o [] (treeItems (entriesL [] src)) = some a)
+    (k : Conc) (evs : List Ev)
+    (hr : RunOK c (a.treeAdds.map (fun t => (BT.tree, treeBytes s j t.2)) ++
+      ((saveL (fun nodes => c.hash (treeBytes s j nodes)) c.hash chunks (idxOld.has .tree) src).chunks.filter
+        (fun ch => !idxOld.has .data (c.hash ch))).map (fun ch => (BT.data, ch))) k evs)
+    (hids : ∀ q ∈ old, ∀ p, q.id ≠ k.packId p)
+    (hcoll : ∀ q ∈ old, ∀ x ∈ q.adds, ∀ y : RoundTrip.Bytes, c.hash x.data = c.hash y → x.data = y)
+    (files : List Rustic.Index.IndexFile)
+    (hfiles : ∀ p, p ∈ Rustic.Index.unmarked files ↔ p ∈ Rustic.Index.unmarked oldFiles ∨
+      p ∈ indexedOf c k (finalizeAll (runEvs Rustic.Props.C07.init evs)))
+    (idx : Rustic.Index.Index) (hl : Rustic.Props.C17.Loaded .full files idx)
+    (order : List Write → List Write) (ho : ∀ l w, w ∈ order l ↔ w ∈ l) :
+    restoreTrees s j
+      (readBlob c idx (backendGet c (old ++ packsOf k (finalizeAll (runEvs Rustic.Props.C07.init evs)))) .tree)
+      (readBlob c idx (backendGet c (old ++ packsOf k (finalizeAll (runEvs Rustic.Props.C07.init evs)))) .data)
+      order (depthL src + 1) a.root = some src := by
+  rw [tree_iterator_items src hwalk] at ha
+  obtain ⟨a', ha', hroot, htrees, _⟩ := archive_eq_save (fun nodes => c.hash (treeBytes s j nodes)) c.hash chunks load
+    (idxOld.has .data) (idxOld.has .tree) o src
+  rw [ha] at ha'
+  injection ha' with ha'
+  subst ha'
+  have hnew := run_repoOK c _ k evs hr
+  have hall : RepoOK c (old ++ packsOf k (finalizeAll (runEvs Rustic.Props.C07.init evs))) (Rustic.Index.unmarked files) := by
+    refine (RepoOK.append hold hnew ?_ ?_).of_mem_iff (fun p => by rw [hfiles p, List.mem_append])
+    · intro q hq q' hq'
+      obtain ⟨p, _, rfl⟩ := List.mem_map.mp hq'
+      exact hids q hq p
+    · intro q hq q' _ _ x hx x' _ hh
+      exact hcoll q hq x hx x'.data hh
+  -- what the run uploaded reads back from the new packs
+  have hreadNew : ∀ b ∈ (a.treeAdds.map (fun t => (BT.tree, treeBytes s j t.2)) ++
+      ((saveL (fun nodes => c.hash (treeBytes s j nodes)) c.hash chunks (idxOld.has .tree) src).chunks.filter
+        (fun ch => !idxOld.has .data (c.hash ch))).map (fun ch => (BT.data, ch))),
+      readBlob c idx (backendGet c (old ++ packsOf k (finalizeAll (runEvs Rustic.Props.C07.init evs))))
+        (toBlobType b.1) (c.hash b.2) = some b.2 := by
+    intro b hb
+    have hent : (b.1, c.hash b.2) ∈ entered evs := (hr.entered _).mpr (List.mem_map.mpr ⟨b, hb, rfl⟩)
+    obtain ⟨q, hq, hty, x, hx, hdata⟩ := entered_is_added k evs _ hent
+    have hcont : k.content (b.1, c.hash b.2) = b.2 := by rw [hr.content]; exact contentOf_spec c.hash _ hr.inj b hb
+    have := blob_read_back c _ files hall idx hl q (List.mem_append_right _ hq) x hx
+    rw [hdata, hcont, hty] at this
+    exact this
+  -- what the old index knew reads back from the old packs
+  have hreadOld : ∀ (t : Rustic.Pack.BlobType) (y : RoundTrip.Bytes), idxOld.has t (c.hash y) = true →
+      readBlob c idx (backendGet c (old ++ packsOf k (finalizeAll (runEvs Rustic.Props.C07.init evs)))) t (c.hash y) = some y := by
+    intro t y hh
+    obtain ⟨q, hq, hty, x, hx, hxh⟩ := has_is_added c old oldFiles hold m idxOld hlOld t (c.hash y) hh
+    have hxy := hcoll q hq x hx y hxh
+    have := blob_read_back c _ files hall idx hl q (List.mem_append_left _ hq) x hx
+    rw [hxy, hty] at this
+    exact this
+  rw [hroot]
+  refine restore_of_saved_gen s hs j (fun nodes => c.hash (treeBytes s j nodes)) c.hash chunks hch (idxOld.has .tree)
+    (readBlob c idx (backendGet c (old ++ packsOf k (finalizeAll (runEvs Rustic.Props.C07.init evs)))) .tree)
+    (readBlob c idx (backendGet c (old ++ packsOf k (finalizeAll (runEvs Rustic.Props.C07.init evs)))) .data)
+    order ho src hwf (fun nodes hh => hreadOld .tree _ hh) ?_ ?_ ?_
+  · by_cases hh : idxOld.has .tree (c.hash (treeBytes s j
+        (saveL (fun nodes => c.hash (treeBytes s j nodes)) c.hash chunks (idxOld.has .tree) src).nodes)) = true
+    · exact hreadOld .tree _ hh
+    · simp only [hh, Bool.false_eq_true, if_false] at htrees
+      exact hreadNew (BT.tree, _) (List.mem_append_left _ (List.mem_map.mpr ⟨(_, _), by
+        rw [htrees]; exact List.mem_append_right _ (List.mem_singleton.mpr rfl), rfl⟩))
+  · intro p hp
+    have hid := saveL_trees_id (fun nodes => c.hash (treeBytes s j nodes)) c.hash chunks (idxOld.has .tree) src p hp
+    have := hreadNew (BT.tree, treeBytes s j p.2) (List.mem_append_left _ (List.mem_map.mpr ⟨p, by
+      rw [htrees]; exact List.mem_append_left _ hp, rfl⟩))
+    rw [hid]
+    exact this
+  · intro ch hc
+    by_cases hh : idxOld.has .data (c.hash ch) = true
+    · exact hreadOld .data ch hh
+    · exact hreadNew (BT.data, ch) (List.mem_append_right _ (List.mem_map.mpr
+        ⟨ch, List.mem_filter.mpr ⟨hc, by simpa using hh⟩, rfl⟩))
+
+open Rustic.Store Rustic.Snapshot Rustic.Tree in
+/-- (11) **Restore does not depend on how the repository stores the blobs.**  ANY repository satisfying `RepoOK` — any key,
+compression setting, pack sizes, distribution of blobs over packs, duplicates, any split into index files, any index the
+loader builds — that holds the tree blobs and chunks of the snapshot of `src` (each as the plaintext of some add of a pack
+of the right type) restores the snapshot's root id to exactly `src`.  (This is the second half of the copy clause of C12:
+`copy_restores_same` shows the destination holds every reachable blob; here that suffices, whatever key / compression /
+pack size the destination uses.) -/
+theorem restore_from_any_repository (c : Cfg) (s : Str) (hs : StrOK s) (j : Ser) (chunks : RoundTrip.Bytes → List RoundTrip.Bytes)
+    (hch : ∀ d, (chunks d).flatten = d) (src : List STree) (hwf : WFL src)
+    (packs : List BuiltPack) (files : List Rustic.Index.IndexFile) (hok : RepoOK c packs (Rustic.Index.unmarked files))
+    (idx : Rustic.Index.Index) (hl : Rustic.Props.C17.Loaded .full files idx)
+    (hroot : ∃ q ∈ packs, q.tpe = .tree ∧ ∃ x ∈ q.adds,
+      x.data = treeBytes s j (saveL (fun nodes => c.hash (treeBytes s j nodes)) c.hash chunks noTree src).nodes)
+    (htrees : ∀ p ∈ (saveL (fun nodes => c.hash (treeBytes s j nodes)) c.hash chunks noTree src).trees,
+      ∃ q ∈ packs, q.tpe = .tree ∧ ∃ x ∈ q.adds, x.data = treeBytes s j p.2)
+    (hdata : ∀ ch ∈ (saveL (fun nodes => c.hash (treeBytes s j nodes)) c.hash chunks noTree src).chunks,
+      ∃ q ∈ packs, q.tpe = .data ∧ ∃ x ∈ q.adds, x.data = ch)
+    (order : List Write → List Write) (ho : ∀ l w, w ∈ order l ↔ w ∈ l) :
+    restoreTrees s j (readBlob c idx (backendGet c packs) .tree) (readBlob c idx (backendGet c packs) .data) order
+      (depthL src + 1) (c.hash (treeBytes s j (saveL (fun nodes => c.hash (treeBytes s j nodes)) c.hash chunks noTree src).nodes))
+      = some src := by
+  have hread : ∀ (t : Rustic.Pack.BlobType) (y : RoundTrip.Bytes), (∃ q ∈ packs, q.tpe = t ∧ ∃ x ∈ q.adds, x.data = y) →
+      readBlob c idx (backendGet c packs) t (c.hash y) = some y := by
+    rintro t y ⟨q, hq, hty, x, hx, rfl⟩
+    rw [← hty]
+    exact blob_read_back c packs files hok idx hl q hq x hx
+  refine restore_of_saved s hs j (fun nodes => c.hash (treeBytes s j nodes)) c.hash chunks hch
+    (readBlob c idx (backendGet c packs) .tree) (readBlob c idx (backendGet c packs) .data) order ho src hwf ?_ ?_ ?_
+  · exact hread .tree _ hroot
+  · intro p hp
+    have hid := saveL_trees_id (fun nodes => c.hash (treeBytes s j nodes)) c.hash chunks noTree src p hp
+    rw [hid]
+    exact hread .tree _ (htrees p hp)
+  · intro ch hc
+    exact hread .data ch (hdata ch hc)
+
+open Rustic.Store in
+/-- (12) **The index files the `Indexer` writes list exactly the packs it was given** — `add_with` saves the current file
+BEFORE resetting it when the blob count reaches `MAX_COUNT` (any threshold `maxCount`) or the file is older than `MAX_AGE`
+(`aged`: any schedule of age-triggered flushes), `finalize` saves the rest: nothing is lost at a flush, nothing is listed
+twice, order kept.  So the hypothesis `hfiles` of (7)–(10) holds for the files of the run's indexer
+(`indexer_files_satisfy_hfiles`). -/
+theorem indexer_files_list_every_pack (maxCount : Nat) (adds : List (Rustic.Index.IndexPack × Bool)) :
+    Rustic.Index.unmarked (Ixr.run maxCount adds).saved = adds.map (·.1) :=
+  ixr_run_unmarked maxCount adds
+
+open Rustic.Store Rustic.Archive in
+theorem indexer_files_satisfy_hfiles (c : Cfg) (k : Conc) (s : PSt) (maxCount : Nat) (aged : List Bool)
+    (hlen : aged.length = (indexedOf c k s).length) :
+    ∀ p, p ∈ Rustic.Index.unmarked (Ixr.run maxCount ((indexedOf c k s).zip aged)).saved ↔ p ∈ indexedOf c k s := by
+  intro p
+  rw [indexer_files_list_every_pack, List.map_fst_zip (by omega)]
+
+/-- (13) **Restored times are exact.**  The `timespec` `LocalDestination::set_times` writes for a snapshot timestamp (jiff:
+seconds truncated toward zero, sub-second part with the sign of the instant) denotes exactly the same instant, in normal form
+(whole seconds rounded down, nanoseconds in `[0, 10^9)`) — before and after the epoch, with any sub-second part — and reading
+it back as a timestamp gives the snapshot's timestamp. -/
+theorem restored_time_is_exact (t : Rustic.Times.JTime) (h : t.WF) :
+    (Rustic.Times.toFileTime t).1 * Rustic.Times.NS + (Rustic.Times.toFileTime t).2 = t.nanos ∧
+    0 ≤ (Rustic.Times.toFileTime t).2 ∧ (Rustic.Times.toFileTime t).2 < Rustic.Times.NS ∧
+    Rustic.Times.ofFileTime (Rustic.Times.toFileTime t).1 (Rustic.Times.toFileTime t).2 = t :=
+  ⟨(Rustic.Times.toFileTime_exact t h).1, (Rustic.Times.toFileTime_exact t h).2.1, (Rustic.Times.toFileTime_exact t h).2.2,
+   Rustic.Times.ofFileTime_toFileTime t h⟩
 
 /-! non-vacuity -/
 
@@ -96,5 +443,67 @@ example : readAt 1000 [2, 3] [[1, 2], [3, 4, 5]] 1 3 = [2, 3, 4] := by decide
 
 example : (coalesceAll 4 100 [⟨0, 10⟩, ⟨12, 5⟩, ⟨40, 3⟩]).map (fun g => (g.offset, g.length, g.blobs.length))
     = [(0, 17, 2), (40, 3, 1)] := by decide
+
+/-! non-vacuity of the composition: a toy instance of every structure, and a concrete run evaluated -/
+
+/-- identity "encryption" with a constant tag, identity "compression": the structure hypotheses are satisfiable -/
+def toyAE : Rustic.Codec.AE :=
+  { Key := Unit, enc := fun _ _ m => m, dec := fun _ _ m => m, tag := fun _ _ _ => List.replicate 16 0
+    enc_len := fun _ _ _ => rfl, dec_enc := fun _ _ _ => rfl, enc_dec := fun _ _ _ => rfl
+    tag_len := fun _ _ _ => by simp }
+def toyZ : Rustic.Codec.Zstd := { compress := id, decompress := some, round := fun _ => rfl }
+def toyCfg : Rustic.Store.Cfg :=
+  { ae := toyAE, z := toyZ, key := (), zstdOn := true, hash := fun b => b.foldl (fun a x => a * 257 + x.toNat + 1) 0 }
+def toyConc (blobs : List (Rustic.Archive.BT × Bytes)) : Rustic.Store.Conc :=
+  concOf toyCfg.hash blobs (fun _ => List.replicate 16 7) (fun _ => List.replicate 16 9)
+    (fun p => p.2.foldl (fun a x => a * 1000003 + x + 1) (if p.1 = .data then 1 else 2))
+def toyBlobs : List (Rustic.Archive.BT × Bytes) := [(.data, [1, 2, 3]), (.tree, [1, 2, 3]), (.data, [9])]
+/-- a schedule with a duplicate add, a tree with the id of a chunk, an early flush, delayed indexing -/
+def toyEvs : List Rustic.Archive.Ev :=
+  [.enter .data 132873, .commit .data, .flush .data, .enter .tree 132873, .write .data, .enter .data 132873, .enter .data 10,
+   .commit .tree, .idx .data, .commit .data]
+
+example : toyBlobs.map (fun b => toyCfg.hash b.2) = [132873, 132873, 10] := by decide
+
+open Rustic.Store Rustic.Archive in
+example :
+    let st := finalizeAll (runEvs Rustic.Props.C07.init toyEvs)
+    let files : List Rustic.Index.IndexFile := [{ packs := indexedOf toyCfg (toyConc toyBlobs) st, packsToDelete := [] }]
+    st.packs = [(.data, [132873]), (.data, [10]), (.tree, [132873])] ∧
+    toyBlobs.map (fun b => readBlob toyCfg (Rustic.Index.load .full files) (backendGet toyCfg (packsOf (toyConc toyBlobs) st))
+      (toBlobType b.1) (toyCfg.hash b.2)) = toyBlobs.map (fun b => some b.2) := by
+  decide
+
+/-- `StrOK` is satisfiable (every byte cut as "invalid" is a legal cutting for the theorem; ASCII-preserving encoder) -/
+example : Rustic.Snapshot.StrOK
+    { cut := fun b => b.map Item.bad
+      lossy := fun _ => []
+      enc := fun c => if c.toNat < 128 then [UInt8.ofNat c.toNat] else [0xc3, 0xa9] } :=
+  ⟨⟨fun c h => by simp [h]⟩, fun b => by induction b <;> simp_all [itemBytes]⟩
+
+open Rustic.Snapshot Rustic.Tree in
+/-- a forest with a file, a directory holding a symlink with a non-UTF-8 target and an empty directory: the iterator's
+items, and what the archiver computes for it -/
+def toySrc : List STree :=
+  [.leaf { name := [97], kind := .file, md := { size := 3, mtime := some 5, ctime := none, inode := 1 } } [1, 2, 3],
+   .dir { name := [98], kind := .dir, md := { size := 0, mtime := some 6, ctime := none, inode := 2 } }
+     [.leaf { name := [0xff], kind := .symlink [0xfe, 0x2f], md := { size := 0, mtime := none, ctime := none, inode := 3 } } [],
+      .dir { name := [99], kind := .dir, md := { size := 0, mtime := some 7, ctime := none, inode := 4 } } []]]
+
+open Rustic.Snapshot Rustic.Tree in
+example : WFL toySrc ∧ WalkableL toySrc ∧ depthL toySrc = 2 ∧ (treeItems (entriesL [] toySrc)).length = 6 ∧
+    (saveL (fun ns => ns.length) (fun b => b.length) (fun d => [d]) noTree toySrc).trees.map (·.2.length) = [0, 2] := by
+  refine ⟨by simp [toySrc, WFL, STree.WF], by simp [toySrc, WalkableL, STree.Walkable, Node.isDir], by decide, by decide, by decide⟩
+
+/-- the indexer flushing after every 3 blobs and once by age: three index files, every pack listed once -/
+example :
+    let p (i n : Nat) : Rustic.Index.IndexPack :=
+      { id := i, size := none, blobs := (List.range n).map fun b => { id := 10 * i + b, tpe := .data, loc := ⟨0, 1, none⟩ } }
+    let r := Rustic.Store.Ixr.run 3 [(p 1 2, false), (p 2 2, false), (p 3 1, true), (p 4 1, false)]
+    r.saved.map (fun f => f.packs.map (·.id)) = [[1, 2], [3], [4]] := by decide
+
+/-- −1.25 s is (−1, −250 000 000) for jiff and (−2, 750 000 000) as a `timespec` -/
+example : Rustic.Times.toFileTime ⟨-1, -250000000⟩ = (-2, 750000000) ∧ (⟨-1, -250000000⟩ : Rustic.Times.JTime).WF := by
+  refine ⟨by decide, by unfold Rustic.Times.JTime.WF Rustic.Times.NS; simp⟩
 
 end Rustic.Props.C01
